@@ -65,8 +65,8 @@ func CalcParams(sql string) (count int, offsets []int, sqlItems []string, err er
 			i = next
 		case ch == '#':
 			i = skipLine(sql, i)
-		case ch == '-' && i+1 < n && sql[i+1] == '-' && (i+2 == n || sql[i+2] <= ' '):
-			// "--" begins a comment only if followed by a whitespace or control character
+		case ch == '-' && i+1 < n && sql[i+1] == '-' && (i+2 == n || sql[i+2] <= ' ' || sql[i+2] == 0x7f):
+			// "--" begins a comment only if followed by a whitespace or control character (DEL is one)
 			i = skipLine(sql, i)
 		case ch == '/' && i+1 < n && sql[i+1] == '*':
 			if i+2 < n && sql[i+2] == '!' {
